@@ -13,7 +13,7 @@ struct Traj { std::vector<double> q, p, charge; };
 
 static double centroid(const PhaseSpace& ps, unsigned n, double& cq, double& cp, unsigned bunch = 0) {
     const float* d = ps.getData() + (size_t)bunch * n * n; double s = 0, sq = 0, sp = 0;
-    for (unsigned x = 0; x < n; x++) for (unsigned y = 0; y < n; y++) { double v = d[(size_t)x * n + y]; s += v; sq += v * ps.q(x); sp += v * ps.p(y); }
+    for (unsigned x = 0; x < n; x++) for (unsigned y = 0; y < n; y++) { double v = d[(size_t)x * n + y]; s += v; sq += v * coord(ps, 0, x); sp += v * coord(ps, 1, y); }
     cq = sq / s; cp = sp / s;
     return s;
 }
@@ -33,7 +33,7 @@ static Traj run(unsigned n, unsigned steps, float sx, float sy, unsigned it, dou
     auto g1 = mkps(qc - h, qc + h, pc - h, pc + h, fill, nullptr, 1, bl, dE);
     // every bunch holds the blob; bunches other than the selected one are mirrored through the origin (their data differs, their orbit is the mirrored one)
     for (unsigned b = 0; b < nb; b++) { const double sg = (b == bsel) ? 1 : -1;
-        for (unsigned x = 0; x < n; x++) for (unsigned y = 0; y < n; y++) dat[((size_t)b * n + x) * n + y] = (float)std::exp(-0.5 * ((g1->q(x) - sg * q0) * (g1->q(x) - sg * q0) + (g1->p(y) - sg * p0) * (g1->p(y) - sg * p0) * 1.3) / (w * w)); }
+        for (unsigned x = 0; x < n; x++) for (unsigned y = 0; y < n; y++) dat[((size_t)b * n + x) * n + y] = (float)std::exp(-0.5 * ((coord(*g1, 0, x) - sg * q0) * (coord(*g1, 0, x) - sg * q0) + (coord(*g1, 1, y) - sg * p0) * (coord(*g1, 1, y) - sg * p0) * 1.3) / (w * w)); }
     std::copy(dat.begin(), dat.end(), g1->getData());
     auto g2 = mkps(qc - h, qc + h, pc - h, pc + h, fill, dat.data(), 1, bl, dE), g3 = mkps(qc - h, qc + h, pc - h, pc + h, fill, dat.data(), 1, bl, dE);
     auto itt = (SourceMap::InterpolationType)it;
